@@ -87,6 +87,7 @@ func crashGen(r *rand.Rand, mode string, thorough bool) dbCase {
 	}
 	c.Recovery = genOpts(r)
 	c.Recovery.Async = mode == "async" && r.Intn(2) == 0
+	c.PermuteUnlink = r.Intn(2) == 0
 	return c
 }
 
@@ -403,6 +404,9 @@ func runCrashCase(c *Ctx, dc dbCase, tape *simrt.Tape, plan crashPlan) crashOutc
 	dir := freshDir(c, "db")
 	defer os.RemoveAll(dir)
 	r := newDBRunner(c.T, dir, tape, dc.Keys)
+	// file systems list directories in different orders: every RemoveAll of the session (compaction inputs, the WAL
+	// folder at Open) deletes in a tape-chosen order in half of the cases
+	r.w.PermuteUnlink = dc.PermuteUnlink
 	add := func(sig, detail string) { out.vs = append(out.vs, dbViolation{sig, detail}) }
 	for si, s := range dc.Sessions {
 		res := r.runSession(si, s)
